@@ -19,7 +19,7 @@ from ..astutil import calls, const, kw, parent_map, short
 from ..kai import interpret, cond_repr
 from ..kutil import CannotEvaluate, eval_cond_full, evaluate, guard_atoms, returned_arrays, show
 from ..program import AnalysisIncomplete, Func, norm
-from ..sym import App, Rat, Sym, walk_atoms
+from ..sym import App, Rat, Sym, subst, walk_atoms
 
 MOORE = {(-1, -1), (0, -1), (1, -1), (-1, 0), (1, 0), (-1, 1), (0, 1), (1, 1)}
 NEUMANN = {(0, -1), (-1, 0), (1, 0), (0, 1)}
@@ -625,11 +625,25 @@ def check_dtypes(prog, rep, f, pub, call, entry, c):
             rep.add('Q2', f, entry, 'matching predicate at line %d' % line, line, None, 'not evaluable: %s' % e)
             continue
         flags |= {a.name for a in fl}
-    if len({cond_key_text(P) for P, _ in preds}) > 1:
+    if len(preds) > 1:
+        ren = {}
+        for Ly, Lx in c.passes:
+            ren[Sym(Ly.var)] = Rat.sym('Y')
+            ren[Sym(Lx.var)] = Rat.sym('X')
+
+        def canon(P):
+            """order-free form of the predicate with both passes' loop variables renamed to (Y, X)"""
+            if isinstance(P, tuple) and P and P[0] in ('and', 'or'):
+                return (P[0], frozenset(canon(x) for x in P[1:]))
+            if isinstance(P, tuple) and P and P[0] == 'not':
+                return ('not', canon(P[1]))
+            if isinstance(P, tuple) and P and P[0] == 'cmp':
+                return ('cmp', P[1], subst(P[2], lambda a: ren.get(a)).canon_key())
+            if isinstance(P, tuple) and P and P[0] == 'truth':
+                return ('truth', subst(P[1], lambda a: ren.get(a)).canon_key() if isinstance(P[1], Rat) else repr(P[1]))
+            return P
         rep.add('Q2', f, entry, 'both passes use the same matching predicate', f.node.lineno,
-                len({cond_key_text(P).replace(c.passes[1][0].var, 'Y').replace(c.passes[1][1].var, 'X').replace(
-                    c.passes[0][0].var, 'Y').replace(c.passes[0][1].var, 'X') for P, _ in preds}) == 1,
-                'pass 1 and pass 2 must agree on which neighbours match')
+                len({canon(P) for P, _ in preds}) == 1, 'pass 1 and pass 2 must agree on which neighbours match')
     # the flag is computed from the raster's dtype in the wrapper
     for fl in sorted(flags):
         actual = None
